@@ -25,12 +25,14 @@ type World struct {
 	InlineNamed func(f *ssa.Function) bool // module functions unfolded at their call sites (family helpers)
 	InlineClosures bool // unfold calls of acyclic lexically nested closures
 	InlineSmall   bool
+	NoUnroll      bool // keep loops over slice literals as loops (cut with invariants)
 
 	FieldFact      func(e *FuncEnc, structT types.Type, field int, base, val string) string
 	MapValueFact   func(e *FuncEnc, declared types.Type, val, has string) string // declared: the static type of the map expression
 	ElemFact       func(e *FuncEnc, elem types.Type, val string) string
 	InvokeSummary  func(e *FuncEnc, cc *ssa.CallCommon) bool
 	LoopSummary    func(e *FuncEnc, li *loopInfo) bool
+	LoopSummaryMatch func(li *loopInfo) bool // side-effect-free: LoopSummary would replace this loop
 	GlobalFact     func(e *FuncEnc, g *ssa.Global, val string) string
 	DynResultFact  func(e *FuncEnc, name string, results []string, rts []types.Type) string
 	DynamicPolicy  func(e *FuncEnc, in ssa.Instruction, name string) CallKind
